@@ -266,8 +266,20 @@ func (s *Server) DidSave(ctx context.Context, params *protocol.DidSaveTextDocume
 		// The loader caches included files by path, with or without a workspace:
 		// a saved file must be read again by whoever includes it.
 		s.loader.InvalidateFile(path)
+		// ... and the include trees of the open documents were resolved from what
+		// the file held before.
+		s.dropResolvedTrees()
 	}
 	return nil
+}
+
+// dropResolvedTrees forgets the include trees kept for the open documents; GetResolved
+// resolves them again on demand.
+func (s *Server) dropResolvedTrees() {
+	s.resolved.Range(func(key, _ any) bool {
+		s.resolved.Delete(key)
+		return true
+	})
 }
 
 func (s *Server) publishDiagnostics(ctx context.Context, docURI protocol.DocumentURI, content string) {
